@@ -439,22 +439,22 @@ func runProperty(eng *Engine, prop, tier string, opts solveOpts, evidence, repla
 		}
 		exit = 1
 	}
-	// bounded stand-ins: functions that carry an assumed contract because they are outside the
-	// verifier's reach are exercised on the real code on every run (stated bound, never counted as proof)
+	// bounded checks of modelling assumptions on the real code, run on every check of the property
+	// (stated bound, never counted as proof)
 	var standInNotes []string
 	if si, ok := boundedStandIns[prop]; ok {
 		work, _ := os.MkdirTemp("", "govc-standin-")
-		rep := map[string]interface{}{"property": prop, "obligation": "bounded-stand-in/" + si.what, "kind": "bounded"}
+		rep := map[string]interface{}{"property": prop, "obligation": "bounded-check/" + si.what, "kind": "bounded"}
 		if eng.runOracle(prop, filepath.Join("/verif/oracle", si.file), nil, rep, work) {
 			path := filepath.Join(replayDir, prop, "bounded_stand_in.json")
 			writeJSON(path, rep)
-			fmt.Printf("FAILED bounded-stand-in/%s [violated oracle] :: %s\n", si.what, si.note)
+			fmt.Printf("FAILED bounded-check/%s [violated oracle] :: %s\n", si.what, si.note)
 			violationLines = append(violationLines, fmt.Sprintf("VIOLATION property=%s replay=%s", prop, path))
 			exit = 1
 			standInNotes = append(standInNotes, "bounded: "+si.note+" - VIOLATED on this tree")
 		} else if rep["oracle_unbuildable"] == true {
-			standInNotes = append(standInNotes, "bounded: "+si.note+" - COULD NOT BE RUN on this tree (the harness does not build against it); the assumed contract is unchecked in this run")
-			fmt.Printf("NOTE bounded-stand-in/%s could not be run on this tree (harness does not build)\n", si.what)
+			standInNotes = append(standInNotes, "bounded: "+si.note+" - COULD NOT BE RUN on this tree (the harness does not build against it); the assumptions are not cross-checked in this run")
+			fmt.Printf("NOTE bounded-check/%s could not be run on this tree (harness does not build)\n", si.what)
 		} else {
 			standInNotes = append(standInNotes, "bounded: "+si.note+" - passed on this tree")
 		}
@@ -651,8 +651,11 @@ var boundedNotes = map[string][]string{}
 
 type standIn struct{ file, what, note string }
 
-// boundedStandIns: executable checks that stand in for assumed contracts of repository functions.
+// boundedStandIns: executable checks that accompany assumptions the proofs rest on.  No function
+// of the repository carries an assumed contract any more; the one entry cross-checks, on the
+// real code, the two assumptions behind the proof of getKeysInAscendingOrder (the semantics of
+// `range` over a map and the contract of sort.Ints).
 var boundedStandIns = map[string]standIn{
-	"C18": {"C18.go.txt", "getKeysInAscendingOrder",
-		"the assumed contract of (*CircularQueue).getKeysInAscendingOrder (keys complete, distinct, ascending) is checked on the real function for every subset of a 7-key universe, and Add/GetMessages are compared with a reference model for capacities 1..6 up to 3*capacity+2 additions and under one adder and three readers (20000 additions)"},
+	"C18": {"C18.go.txt", "map-range+sort.Ints",
+		"the model of `range` over a map and the assumed contract of sort.Ints, on which the proof of (*CircularQueue).getKeysInAscendingOrder rests, are cross-checked on the real function (keys complete, distinct, ascending) for every subset of a 7-key universe, and Add/GetMessages are compared with a reference model for capacities 1..6 up to 3*capacity+2 additions and under one adder and three readers (20000 additions)"},
 }
